@@ -49,14 +49,27 @@ def c14(work, tier, seed, replay):
         store = "sqlfile" if (has_restart or j % 2 == 0) else "inmem"
         types = ["sumdb", "tiles"] if j % 3 else ["tiles", "tiles"]
         jobs.append({"id": "o%d" % j, "store": store, "sigma": SIGMAS[sig_names[j % len(sig_names)]], "types": types, "events": s["events"]})
+    # long growth chains inside ONE process (no restart), every log stepping through sizes around the tile boundaries:
+    # behaviours of OmniRun with MaxSize = 8 (judged like the others)
+    CH = [0, 5, 200, 255, 256, 257, 300, 65536, 65537]
+    chains = []
+    for j, types in enumerate((["sumdb", "tiles"], ["tiles", "sumdb"], ["tiles", "tiles"])):
+        evs = []
+        for n in range(2, 9):
+            evs.append({"a": "grow", "l": "l1", "b": 0, "n": n})
+            evs.append({"a": "grow", "l": "l2", "b": 0, "n": n})
+        if j == 2:
+            evs = [e for e in evs if e["n"] in (3, 4, 6, 8)]       # bigger jumps: 5 -> 255 -> 256 -> 300 -> 65537
+        chains.append({"id": "chain%d" % j, "store": "sqlfile" if j == 1 else "inmem", "sigma": CH, "types": types, "events": evs})
     # a log whose first published checkpoint has size 0 (the known finding F1 is expected here)
     jobs.append({"id": "ozero", "store": "inmem", "sigma": SIGMAS["tile"], "types": ["sumdb", "tiles"], "start": 0,
                  "events": [{"a": "grow", "l": "l1", "b": 0, "n": 2}]})
     nshard = NCPU - 1
     cmds, outs = [], []
     zero = [jobs.pop()]
-    for k in range(nshard + 1):
-        part = jobs[k::nshard] if k < nshard else zero
+    nshard -= len(chains)
+    for k in range(nshard + 1 + len(chains)):
+        part = jobs[k::nshard] if k < nshard else (zero if k == nshard else [chains[k - nshard - 1]])
         if not part:
             continue
         ip, op = work.path("omni-%d.jsonl" % k), work.path("omni-%d.ndjson" % k)
@@ -71,14 +84,34 @@ def c14(work, tier, seed, replay):
         for op in outs:
             f.write(open(op).read())
     events = read_ndjson(tp)
-    jc = dict(O_BASE, Durable=True, MaxEvents=nev, TraceFile=tp)
+    jobs = jobs + chains
+    jc = dict(O_BASE, Durable=True, MaxEvents=nev, TraceFile=tp, MaxSize=8)
     jr = tlc(work, "MC_Trace_Omni", cfg_text(spec="TSpec", constants=jc, action_constraints=["Monitor"], postcondition="Done"), name="judge-omni", workers=1, timeout=3600, heap="8g")
     if not jr.ok:
         raise Inconclusive("omni judge failed: %s\n%s" % (jr.error or jr.violated, jr.out[-3000:]))
     fails = [["FAIL", f["id"], f["name"], f["i"], f["run"], f["k"], f["sig"]] for f in map(json.loads, jr.prints("FAIL"))]
     seqfam.settle(rep, "C14", fails, events, jc)
+    # proof sweeps: each tiled feeder type (and rekor) builds the proof for every pair of sizes against a stub server over a generated tree
+    sweep = {}
+    npairs = 150 if tier == "quick" else 700
+    tfails, tevents = [], []
+    for kind in ("tiles", "pixel", "rekor"):
+        sp = work.path("sweep-%s.ndjson" % kind)
+        o, dt = run_driver(["tile", "-out", sp, "-pairs", str(npairs), "-samples", "0" if kind == "pixel" else ("100" if tier == "quick" else "1500"),
+                            "-feeder", kind, "-seed", str(seed), "-workers", str(NCPU)], timeout=6000)
+        evs = read_ndjson(sp)
+        jr2 = tlc(work, "Trace_Tile", cfg_text(spec="JSpec", constants={"Height": 8, "Levels": {0}, "Indices": {0}, "Widths": {1}, "TraceFile": sp},
+                                               action_constraints=["Monitor"], postcondition="Done"), name="judge-sweep-" + kind, workers=1, timeout=3600, heap="12g")
+        if not jr2.ok:
+            raise Inconclusive("proof sweep judge failed: %s\n%s" % (jr2.error or jr2.violated, jr2.out[-2000:]))
+        for f in map(json.loads, jr2.prints("FAIL")):
+            tfails.append(["FAIL", "C14", kind + "-feeder/" + f["name"], f["i"] + len(tevents), f["run"], f["k"], f["sig"]])
+        tevents += evs
+        sweep[kind] = len(evs)
+    seqfam.settle(rep, "C14", tfails, tevents, {"Height": 8})
+    rep.cov["feeder_proof_sweeps"] = dict(sweep, pairs="all 1 <= from < to <= %d plus samples to 2^20 (pixel: pairs only, its path format is only defined below tile index 1000)" % npairs)
     obs = [e for e in events if e["e"] == "omni.obs"]
-    rep.cov["evaluations"] = len(obs)
+    rep.cov["evaluations"] = len(obs) + len(tevents)
     rep.cov["traces_validated_against_impl"] = len(take)
     rep.cov["distinct_nontrivial"] = len({json.dumps([j["events"], j["store"], j["sigma"], j["types"]]) for j in jobs})
     waits = sorted(e["waitedms"] for e in obs if e["waitedms"] > 0)
@@ -237,10 +270,10 @@ def c19(work, tier, seed, replay):
     # (1) the hostile-server menu, enumerated by TLC from Totality.tla
     r = require_ok(tlc(work, "Totality", cfg_text(spec="Spec", constants={}, invariants=["OnlyAllowed", "EmitScen"], properties=["Total"]), name="MC_Totality", timeout=600),
                    "design check Totality")
-    rep.add_model("Totality (5 feeders x 2 witness states x 16 checkpoint classes x 7 data classes)", r)
+    rep.add_model("Totality (5 feeders x 2 witness states x 19 checkpoint classes x 9 data classes)", r)
     scens = [json.loads(x) for x in sorted(set(r.prints("HOSTILE")))]
     if tier == "quick":
-        must = [s for s in scens if s["cp"].startswith("size2") and s["data"] == "valid"]
+        must = [s for s in scens if (s["cp"].startswith("size2") and s["data"] == "valid") or (s["feeder"] == "rekor" and (s["cp"].startswith("json-") or s["data"].startswith("json-")) and s["data"] in ("valid", "json-null", "json-odd") and s["cp"] in ("valid", "json-null-shard", "json-inactive-shard", "json-odd-types"))]
         rest = [s for s in scens if s not in must]
         rng.shuffle(rest)
         scens = must + rest[:220]
